@@ -922,38 +922,55 @@ def nontrivial(c, o):
             big.bit_length(), orph, min(width, 4))
 
 
+TRUSTED = [
+    "models coq/model/Register.v and coq/model/MerkleReg.v (hand-written) tied to ant-registers and crdts-7.3.2 by "
+    "this run's correspondence (result codes of every step, operation sets, verify(), the client's rebuilt "
+    "read(), and the MerkleReg's dag/orphans/read after every apply/merge)",
+    "translator tools/extract_consts.py: max_reg_entry_size, max_reg_num_entries re-read from register.rs",
+    "harness/crates/c06 (Rust driver, serde mirror for forged operations), tools/props/C06.py (generator, oracle)",
+    "symbolic BLS signatures; abstract collision-free SHA3 node hash; abstract 64-bit signing digest"]
+RELATION = ("SignedRegister::{add_op,merge,verified_merge,verify,verify_with_address,ops} / "
+            "RegisterCrdt::{apply_op,merge,read} == Register.{add_op,merge,verified_merge_in,verify_in,"
+            "client_build} / MerkleReg.{mr_apply,mr_merge,mr_read} step by step")
+
+
+def _raced(ctx, since):
+    """tie-breaks that only say another check, running at the same time, regenerated coq/gen/Consts.v and
+    rebuilt its .vo between this run's proof build and its case evaluation (coqc then refuses the stale
+    model library), or is in the middle of adding its own harness crate to the cargo workspace.  Races
+    between concurrent runs, not findings: rebuild and repeat that part."""
+    return [t for t in ctx.tie_breaks[since:]
+            if (t[0] == "model-eval" and "inconsistent assumptions" in str(t[2])) or
+               (t[0] == "harness-build" and "failed to load manifest for workspace member" in str(t[2])
+                and "crates/c06`" not in str(t[2]))]
+
+
 def run(ctx):
     import copy
-    for attempt in range(3):
-        snap = (list(ctx.impl_viol), list(ctx.tie_breaks), copy.deepcopy(ctx.cov), set(ctx._nontrivial))
-        run_once(ctx)
-        # other checks running at the same time may regenerate coq/gen/Consts.v (and rebuild its .vo) between
-        # this run's proof build and its case evaluation; coqc then refuses the stale model library.  That is a
-        # race between concurrent runs, not a finding: rebuild and evaluate again.
-        race = [t for t in ctx.tie_breaks[len(snap[1]):]
-                if (t[0] == "model-eval" and "inconsistent assumptions" in str(t[2])) or
-                   (t[0] == "harness-build" and "failed to load manifest for workspace member" in str(t[2])
-                    and "crates/c06`" not in str(t[2]))]
-        if not race or attempt == 2:
-            return
-        ctx.log("a concurrent run rebuilt the model libraries / is adding another harness crate; repeating the run")
-        import time
-        time.sleep(20)
-        ctx.impl_viol, ctx.tie_breaks, ctx.cov, ctx._nontrivial = snap[0], snap[1], snap[2], snap[3]
-
-
-def run_once(ctx):
+    import time
     ctx.regen_consts()
-    ctx.prove("props/C06.v", THEOREMS, extra_trusted=[
-        "models coq/model/Register.v and coq/model/MerkleReg.v (hand-written) tied to ant-registers and crdts-7.3.2 by "
-        "this run's correspondence (result codes of every step, operation sets, verify(), the client's rebuilt "
-        "read(), and the MerkleReg's dag/orphans/read after every apply/merge)",
-        "translator tools/extract_consts.py: max_reg_entry_size, max_reg_num_entries re-read from register.rs",
-        "harness/crates/c06 (Rust driver, serde mirror for forged operations), tools/props/C06.py (generator, oracle)",
-        "symbolic BLS signatures; abstract collision-free SHA3 node hash; abstract 64-bit signing digest"])
-    binary = ctx.cargo_build("c06")
+    ctx.prove("props/C06.v", THEOREMS, extra_trusted=TRUSTED)
+    binary = None
+    for attempt in range(4):
+        n0 = len(ctx.tie_breaks)
+        binary = ctx.cargo_build("c06")
+        if binary is not None or not _raced(ctx, n0) or attempt == 3:
+            break
+        del ctx.tie_breaks[n0:]
+        time.sleep(30)
     cases = ctx.corpus() + ([] if ctx.replay else gen(ctx))
-    ctx.pipeline(cases, binary, oracle, model_term, IMPORTS, nontrivial=nontrivial, show=show, shard_size=12,
-                 relation="SignedRegister::{add_op,merge,verified_merge,verify,verify_with_address,ops} / "
-                          "RegisterCrdt::{apply_op,merge,read} == Register.{add_op,merge,verified_merge_in,verify_in,"
-                          "client_build} / MerkleReg.{mr_apply,mr_merge,mr_read} step by step")
+    # evaluated in chunks so that a concurrent rebuild of the model libraries costs one chunk, not the run
+    size = 250
+    for k in range(0, len(cases), size):
+        chunk = cases[k:k + size]
+        for attempt in range(5):
+            snap = (list(ctx.impl_viol), list(ctx.tie_breaks), copy.deepcopy(ctx.cov), set(ctx._nontrivial))
+            ctx.pipeline(chunk, binary, oracle, model_term, IMPORTS, nontrivial=nontrivial, show=show,
+                         shard_size=12, relation=RELATION)
+            if not _raced(ctx, len(snap[1])) or attempt == 4:
+                break
+            ctx.log("a concurrent run rebuilt the model libraries during evaluation; rebuilding and repeating this chunk")
+            ctx.impl_viol, ctx.tie_breaks, ctx.cov, ctx._nontrivial = snap[0], snap[1], snap[2], snap[3]
+            ctx.regen_consts()
+            if not ctx.prove("props/C06.v", THEOREMS, extra_trusted=TRUSTED):
+                return
